@@ -90,6 +90,10 @@ def main() -> int:
         first_ = (holders_[:3] + holders_[3:][rot_:rot_ + 3])[:6]
         d["components"]["schemas"] = dict(first_ + [kv for kv in items_ if kv not in first_])
         basedocs.append((f"{l}", d, {"union_models", l}))
+    for l, d in docs.rare_feature_docs()[:: (2 if quick else 1)]:
+        d = docs.clone(d)
+        d["info"]["title"] = "Option Test API"
+        basedocs.append((l, d, {"rare", l}))
     # custom template directory: override one small template
     tdir = scratch() / "custom_templates"
     tdir.mkdir(parents=True, exist_ok=True)
